@@ -249,3 +249,52 @@ def relabel_shift_pairs(ctx: Ctx) -> None:
     good = bool(blocks_front) and all(isinstance(c.args[0], ast.Name) for c in blocks_front)
     (ctx.ok if good else ctx.bad)(R, f, blocks_front[0] if blocks_front else f.node, 'moved arrays are put in front of self\'s own blocks, as the new labels are put in front' if good else
                                   'the moved arrays are not put in front of self\'s own blocks', key='front')
+
+
+def join_key_sources(ctx: Ctx) -> None:
+    R = 'I.join-key-sources'
+    ctx.rule(R, 'a join key may be taken from index depths, from columns, or from both ("one or both" — Frame._join requires at least one per side): in '
+             'container_util.arrays_from_index_frame, on the path where both options are given, the arrays of the index depths and the arrays of the columns are both '
+             'yielded; if the second source is an alternative of the first (elif) the column part of a composite key is silently dropped and rows pair on the index alone', floor=1)
+    from sfa import flow
+    prog = ctx.prog
+    f = prog.func('container_util.arrays_from_index_frame')
+    opts = [p for p in f.params[1:]]
+    ctx.require(len(opts) == 2, 'arrays_from_index_frame(container, <index depths>, <columns>)')
+
+    class C(flow.Client):
+        def __init__(self):
+            self.yielded: tp.List[ast.AST] = []
+
+        def join(self, a, b):
+            return a
+
+        def refine(self, atom, st, truth):
+            # scenario: both options are given
+            if isinstance(atom, ast.Compare) and len(atom.ops) == 1 and isinstance(atom.left, ast.Name) and atom.left.id in opts \
+                    and isinstance(atom.comparators[0], ast.Constant) and atom.comparators[0].value is None:
+                given = isinstance(atom.ops[0], ast.IsNot)
+                if given != truth:
+                    return None
+            return st
+
+        def on_yield(self, node, st):
+            if not any(n is node for n in self.yielded):
+                self.yielded.append(node)
+            return st
+
+        def on_expr(self, node, st):
+            if isinstance(node, (ast.Yield, ast.YieldFrom)) and not any(n is node for n in self.yielded):
+                self.yielded.append(node)
+            return st
+    c = C()
+    flow.Engine(c).run(f.node.body, True)
+    src_index = [y for y in c.yielded if any(isinstance(x, ast.Attribute) and x.attr in ('index', '_index') for x in ast.walk(y))]
+    src_cols = [y for y in c.yielded if any(isinstance(x, ast.Attribute) and x.attr in ('_blocks', 'columns', '_columns') for x in ast.walk(y)) and y not in src_index]
+    key = 'arrays_from_index_frame:both-given'
+    if src_index and src_cols:
+        ctx.ok(R, f, f.node, 'with both options given the index-depth arrays and the column arrays are both yielded', key=key)
+    else:
+        missing = 'column arrays' if src_index else 'index-depth arrays'
+        ctx.bad(R, f, f.node, f'with both `{opts[0]}` and `{opts[1]}` given the {missing} are never yielded (the two sources are alternatives): the composite join key loses '
+                'a part and rows are paired on the rest alone', key=key)
